@@ -545,3 +545,12 @@ _add(
     m("rename-ignores-task-identity", T, "        if task is None or self._tasks.get(old_name) is task:\n", "        if True:\n", "C37.5"),
     m("wraps-task-renames-by-name-only", T, "new_namespace=new_namespace, task=task_\n", "new_namespace=new_namespace\n", "C37.5"),
 )
+_add(
+    "C32",
+    m("gcp-array-index-from-listing-position", "redun/executors/gcp_batch.py", "                for task in batch_tasks:\n", "                for array_index, task in enumerate(batch_tasks):\n", "C32.7"),
+)
+_add(
+    "C10",
+    m("gcp-reunite-miss-drops-job", "redun/executors/gcp_batch.py", "            else:\n                # Batch task is no longer available, submit the job anew.\n                batch_task_name = None\n", "", "C10.7"),
+    m("aws-batch-reunite-miss-drops-job", "redun/executors/aws_batch.py", "            else:\n                batch_job_id = None\n\n        # Job arrayer will handle", "\n        # Job arrayer will handle", "C10.7"),
+)
